@@ -64,3 +64,19 @@ Print Assumptions C19_age_filter.
 Example C19_example : selected_within 2 5 4 [[1;4;5;9]; [1;5;9]; [1;5;9;12]] = true
   /\ Forall (table_ok 5) [[1;4;5;9]; [1;5;9]; [1;5;9;12]].
 Proof. exact coverage_example. Qed.
+
+(* ---- which passes of the main loop are "idle iterations" (Model/Gate.v) ---- *)
+From Alp Require Model.Gate Proofs.GateProofs.
+(* auto-verification runs in a pass exactly when the node's FIFO was empty as the pass started, the I/O class did not cancel the update,
+   the node is idle after the update, and auto-verify is switched on *)
+Theorem C19_gate : forall p, Gate.verifies p = true <->
+  Gate.p_idle_at_start p = true /\ Gate.p_do_update p = true /\ Gate.p_idle_after p = true /\ (0 < Gate.p_auto_verify p)%Z.
+Proof. intros p; split; [apply GateProofs.gate_sound | intros [A [B [C D]]]; apply GateProofs.gate_complete; assumption]. Qed.
+Print Assumptions C19_gate.
+(* passes that do not verify select nothing and leave the cursor alone: over any sequence of passes the batches and the final cursor are
+   those of the walk over the verifying passes alone --- "successive idle iterations continue where the previous one stopped" *)
+Theorem C19_skipped_passes_are_invisible : forall cur ps,
+  snd (Gate.passes cur ps) = snd (Gate.passes cur (filter Gate.verifies ps)) /\
+  filter (fun b => match b with Some _ => true | None => false end) (fst (Gate.passes cur ps)) = fst (Gate.passes cur (filter Gate.verifies ps)).
+Proof. exact GateProofs.passes_filter. Qed.
+Print Assumptions C19_skipped_passes_are_invisible.
